@@ -126,7 +126,8 @@ type verifToolLog struct {
 	lastName string
 }
 
-// verifToolHandler: outcome 0 = one text item, 1 = empty result (nil content), 2 = error, 3 = un-encodable (NaN) structured content
+// verifToolHandler: outcome 0 = one text item, 1 = empty result (nil content), 2 = error, 3 = un-encodable (NaN)
+// structured content, 4 = structured content only (nil content), 5 = error flag only (nil content)
 func verifToolHandler(log *verifToolLog, outcome int, text string) toolHandler {
 	return func(ctx context.Context, req *CallToolRequest) (*CallToolResult, error) {
 		log.calls++
@@ -139,6 +140,10 @@ func verifToolHandler(log *verifToolLog, outcome int, text string) toolHandler {
 			return &CallToolResult{}, nil
 		case 2:
 			return nil, errVerifHandler
+		case 4:
+			return &CallToolResult{StructuredContent: map[string]interface{}{"x": 1}}, nil
+		case 5:
+			return &CallToolResult{IsError: true}, nil
 		}
 		nan := 0.0
 		nan = nan / nan
